@@ -276,6 +276,25 @@ func (r *CheckRun) Run() (code int) {
 				return vc.Generate()
 			}()
 			tGen := time.Since(t0u)
+			if err == nil && vc.contract != nil {
+				// vacuity guard: every checked postcondition of the contract must have produced an obligation
+				have := map[string]bool{}
+				for _, o := range vc.obls {
+					have[o.Name] = true
+				}
+				for _, e := range vc.contract.Ensures {
+					if !vc.clauseOn(e) || e.Trusted {
+						continue
+					}
+					name := "[" + strings.Join(e.Labels, ",") + "]"
+					if len(e.Labels) == 0 {
+						name = fmt.Sprintf("ensures@%d", e.Line)
+					}
+					if !have[name] {
+						err = fmt.Errorf("%s: postcondition %s produced no obligation (no normal return was translated)", k, name)
+					}
+				}
+			}
 			if err == nil {
 				vc.finish()
 				err = vc.Discharge(vc.obls, r.Work, quickMs, slowMs)
